@@ -2,7 +2,7 @@
    (supported labels, trigger type/channel lists, extension names and headers, file scales).
    Each is a finite check over the generated definitions: it is re-proved whenever the source changes. *)
 From Coq Require Import List Bool ZArith QArith String Lia.
-From PV Require Import Gen.GenLabels.
+From PV Require Import Gen.GenLabels Model.Seq.
 Import ListNotations.
 Open Scope Z_scope.
 
@@ -103,3 +103,26 @@ Theorem row_formats :
   fmt_triggers_row = "{:.0f} {:.0f} {:.0f} {:.0f} {:.0f}"%string /\
   label_value_is_int_coerced = true /\ label_type_strings = ["SET"; "INC"]%string.
 Proof. repeat split; reflexivity. Qed.
+
+(* ---- the numeric id given to a new extension name (get_extension_type_ID, as read from the source) ---- *)
+Lemma fold_max_bounds l : forall a, a <= fold_left Z.max l a /\ forall y, In y l -> y <= fold_left Z.max l a.
+Proof.
+  induction l as [|x r IH]; intro a; cbn [fold_left]; [split; [lia|intros y []]|].
+  destruct (IH (Z.max a x)) as [H1 H2]. split; [lia|].
+  intros y [<-|Hy]; [lia|apply H2; exact Hy].
+Qed.
+
+(* it is larger than every id in use, whatever the order of the list (e.g. [2; 1] after a read()) *)
+Theorem ext_new_id_fresh : forall l, ~ In (ext_new_id l) l.
+Proof.
+  intros [|x r]; [intros []|]. unfold ext_new_id. destruct (fold_max_bounds r x) as [H1 H2].
+  intros [H|H]; [lia|]. specialize (H2 _ H). lia.
+Qed.
+
+(* and it is the rule Model/Seq.v uses (ids are positive) *)
+Theorem ext_new_id_is_model : forall l, Forall (fun x => 0 <= x) l ->
+  ext_new_id l = match l with [] => 1 | _ => 1 + PV.Model.Seq.max_list l end.
+Proof.
+  intros [|x r] F; [reflexivity|]. unfold ext_new_id, PV.Model.Seq.max_list. cbn [fold_left].
+  inversion F. subst. rewrite Z.max_r by assumption. reflexivity.
+Qed.
